@@ -41,9 +41,10 @@ GOENV = {
 # --------------------------------------------------------------------------- check table
 # run: test = -test.run regexp; n = rapid.checks per tier (total over shards); shards per tier;
 #      steps = rapid.steps; variant = build variant; timeout in seconds per shard.
-def R(test, quick, thorough, shards=(4, 16), steps=None, timeout=(600, 3000), extra=None, norapid=False, env=None):
+def R(test, quick, thorough, shards=(4, 16), steps=None, timeout=(600, 3000), extra=None, norapid=False, env=None, fuzz=None, tiers=("quick", "thorough")):
+    """fuzz = seconds of native 'go test -fuzz' (coverage guided, all cores); such an entry only runs in the tiers listed."""
     return dict(test=test, n=dict(quick=quick, thorough=thorough), shards=dict(quick=shards[0], thorough=shards[1]),
-                steps=steps, timeout=dict(quick=timeout[0], thorough=timeout[1]), extra=extra or [], norapid=norapid, env=env or {})
+                steps=steps, timeout=dict(quick=timeout[0], thorough=timeout[1]), extra=extra or [], norapid=norapid, env=env or {}, fuzz=fuzz, tiers=tiers)
 
 
 CHECKS = {}
@@ -184,6 +185,15 @@ check("C06", "collection removes exactly the garbage, converges, is not starved"
       "ReferrersDangling on for never-existing subjects) and empty responses are not asserted.",
       "DESIGN.md §3 C06",
       [R("^TestC06$", 3000, 100000, steps=30)])
+
+check("C15", "any request gets a well-formed answer", "exploration",
+      "grammar-based request generator in rapid sequences over prepared states + the same generator under Go's native coverage-guided fuzzer (thorough); oracle = no panic, no 5xx on healthy storage, OCI error schema + code table + condition-specific codes, independent router",
+      "Randomised search over methods, paths assembled from hostile and valid segments, boundary query values, headers and bodies, sent in sequences of up to 15 over six prepared states (empty, populated "
+      "with paged referrers, open sessions, read-only, dir root with a corrupt and a legacy repository); the thorough tier additionally runs the generator under 'go test -fuzz' on all cores. A recovered "
+      "handler panic is a violation (in-process transport), every 4xx/5xx body must be an OCI error document with registered codes, and an independently written router decides what must be a 404.",
+      "Trusted: the independent router/grammar in c15_test.go; the 416 text/plain answer of net/http.ServeContent is exempt from the error-document rule; 5xx is tolerated only for repositories the generator corrupted.",
+      "DESIGN.md §3 C15",
+      [R("^TestC15$", 8000, 400000), R("^FuzzC15$", 0, 0, fuzz=600, tiers=("thorough",))])
 
 NOT_APPLICABLE = {}
 
@@ -333,6 +343,8 @@ def limit_mem(variant):
 def run_shards(binp, work, pid, tier, run, seed, known_open, variant):
     """Start all shards of one run entry; return list of (shard, returncode, output, outdir, cwd)."""
     nshards = max(1, min(run["shards"][tier], NCPU))
+    if run.get("fuzz"):
+        nshards = 1
     total = run["n"][tier]
     per = max(1, total // nshards)
     procs = []
@@ -344,7 +356,11 @@ def run_shards(binp, work, pid, tier, run, seed, known_open, variant):
         os.makedirs(out, exist_ok=True)
         sseed = (seed * 1000003 + i * 7919 + 1) % (2**62) or 1
         cmd = [binp, "-test.run", run["test"], "-test.timeout", "%ds" % run["timeout"][tier], "-test.count", "1"]
-        if not run["norapid"]:
+        if run.get("fuzz"):
+            # native fuzzing cannot be pinned to a seed: the saved failing input is the reproducible unit
+            cmd = [binp, "-test.run", "^$", "-test.fuzz", run["test"], "-test.fuzztime", "%ds" % run["fuzz"], "-test.fuzzcachedir", os.path.join(work, "fuzzcache"),
+                   "-test.parallel", str(NCPU), "-test.timeout", "%ds" % (run["fuzz"] + 300)]
+        elif not run["norapid"]:
             cmd += ["-rapid.checks", str(per), "-rapid.seed", str(sseed), "-rapid.shrinktime", "20s"]
             if run["steps"]:
                 cmd += ["-rapid.steps", str(run["steps"])]
@@ -353,12 +369,18 @@ def run_shards(binp, work, pid, tier, run, seed, known_open, variant):
                      "VERIF_KNOWN_OPEN": ",".join(known_open), "VERIF_SRC": os.path.join(work, "src"), "VERIF_DIR": VERIF,
                      "GORACE": "halt_on_error=0 log_path=%s/race" % out})
         env.update(run["env"])
+        if run.get("fuzz"):
+            env["VERIF_FUZZ"] = "1"
+            # seed corpus committed under /verif/corpus/<FuzzName>/ is offered to the fuzzer
+            cdir = os.path.join(VERIF, "corpus", run["test"].strip("^$"))
+            if os.path.isdir(cdir):
+                shutil.copytree(cdir, os.path.join(cwd, "testdata", "fuzz", run["test"].strip("^$")), dirs_exist_ok=True)
         p = subprocess.Popen(cmd, cwd=cwd, env=env, stdout=subprocess.PIPE, stderr=subprocess.STDOUT, text=True, preexec_fn=limit_mem(variant))
         procs.append((i, p, out, cwd, sseed, per))
     res = []
     for i, p, out, cwd, sseed, per in procs:
         try:
-            o, _ = p.communicate(timeout=run["timeout"][tier] + 120)
+            o, _ = p.communicate(timeout=(run["fuzz"] + 600) if run.get("fuzz") else run["timeout"][tier] + 120)
         except subprocess.TimeoutExpired:
             try:
                 os.killpg(p.pid, signal.SIGKILL)
@@ -477,6 +499,8 @@ def cmd_check(pid, tier):
                 all_stats, violations, known_hits, infra = [], [], [], []
                 notes = []
                 for run in c["runs"]:
+                    if tier not in run.get("tiers", ("quick", "thorough")):
+                        continue
                     attempt_seed = seed
                     for attempt in range(3):
                         results = run_shards(binp, work, pid, tier, run, attempt_seed, open_sigs, c["variant"])
